@@ -42,6 +42,14 @@ WITNESSES = {
 }
 
 
+# thorough-tier clippy cross-reference of the K7 site detector: property -> packages
+XREF = {
+    "C08": ["astria-merkle"],
+    "C09": ["astria-conductor"],
+    "C17": ["astria-merkle", "astria-core", "astria-core-address", "astria-core-crypto"],
+}
+
+
 def log(*a):
     print(*a, file=sys.stderr, flush=True)
 
@@ -367,6 +375,17 @@ def main(argv):
         except Exception:
             traceback.print_exc()
             rep.selftest = {"error": traceback.format_exc().splitlines()[-1]}
+        if a.pid in XREF:
+            import xref
+            try:
+                x = xref.run(prog, XREF[a.pid])
+                for u in x["unseen"]:
+                    print(f"SELFTEST-MISS: property={a.pid} xref clippy site not seen by the K7 "
+                          f"detector: {u}")
+            except Exception:
+                traceback.print_exc()
+                x = {"error": traceback.format_exc().splitlines()[-1]}
+            rep.selftest["xref"] = x
     return rep.finish(prog, hashes)
 
 
